@@ -7,6 +7,7 @@ From BV Require Import Lib.Cases Model.LaxSem Model.Restart Model.Pool
 From BV Require Import Proofs.PoolHist.
 From BV Require Import Proofs.PoolRefuted.
 From BV Require Lib.PyVal Gen.G_pool_shape Gen.K_timedout Proofs.PoolKernel.
+From BV Require Gen.K_worker Model.Worker Proofs.WorkerProofs.
 Import ListNotations.
 Open Scope Z_scope.
 
@@ -103,6 +104,29 @@ Theorem C05_timed_out_was_due : forall c tr j x l,
                   /\ lim <> 0 /\ t <> 0 /\ l = hard x /\ t + lim <= now (run c tr).
 Proof. exact timed_out_was_due. Qed.
 Print Assumptions C05_timed_out_was_due.
+
+(* ---- worker side (Model/Worker.v, tied to Worker.workloop by translation of its skeleton and by
+   correspondence on the real loop): the worker honours the termination signal instead of treating
+   it as a task error.  Once the handler has run, whatever the task's cleanup code turns the
+   interruption into leaves the loop at once: no READY for the job, no further job taken *)
+Theorem C05_worker_honours_termination : forall c n q rest,
+    Worker.guard (Worker.maxtasks c) n = true -> Worker.task_ok (Worker.q_ty q) = true ->
+    WorkerProofs.confirmed c q = true ->
+    Worker.q_term q = true -> WorkerProofs.task_raises (Worker.q_beh q) = true ->
+    exists x, WorkerProofs.cut_short x = 1 /\ Worker.loop c n (Worker.RMsg q :: rest)
+              = (Worker.accept_events c q ++ [Worker.ERun (Worker.q_job q) (Worker.q_i q)], x, n).
+Proof. exact WorkerProofs.converted_interruption_still_exits. Qed.
+Print Assumptions C05_worker_honours_termination.
+
+(* ... over whole runs: a loop left this way ends with the start of that job's execution *)
+Theorem C05_worker_term_ends_trace : forall c ins n,
+    WorkerProofs.cut_short (WorkerProofs.xit (Worker.loop c n ins)) = 1 ->
+    exists l q, In (Worker.RMsg q) ins /\ WorkerProofs.confirmed c q = true /\
+                Worker.task_escapes q = Some (WorkerProofs.xit (Worker.loop c n ins)) /\
+                WorkerProofs.evs (Worker.loop c n ins)
+                = l ++ Worker.accept_events c q ++ [Worker.ERun (Worker.q_job q) (Worker.q_i q)].
+Proof. exact WorkerProofs.termination_ends_trace. Qed.
+Print Assumptions C05_worker_term_ends_trace.
 
 (* ---- not satisfied by the pinned tree (known finding C05:limit-without-scanner): a job's own
    limit on a pool created without limits is enforced by nobody *)
